@@ -20,6 +20,9 @@ FILE_STATES = {
     "newline": b"a1b2a3c1\n", "empty": b"", "nine": b"abcd12345", "symbol": b"abcd123!",
     # the PIN file is a symbolic link to a regular file holding a valid PIN (a mounted secret)
     "link": b"a1b2a3c1",
+    # a valid PIN made of the characters people take for one another (a generator may avoid them;
+    # a PIN that has them stays valid)
+    "lookalike": b"0lI1O0lI",
 }
 DEFAULT_PIN = b"12d4a2cd"
 NOMINAL = None
